@@ -19,6 +19,13 @@ import json, os, re, shutil, subprocess, sys, time, queue, threading
 
 ENV = dict(os.environ, GOFLAGS="-mod=mod", GOPROXY="off", GOSUMDB="off", GOTOOLCHAIN="local")
 ALL = ["C%02d" % i for i in range(1, 21)]
+# --checks byfile: the checks whose model, tables or harness exercise the file a patch touches
+BYFILE = [(r"^authorizer\.go", "C02 C03 C04 C11 C12 C13 C18 C19"),
+          (r"^biscuit\.go|^options\.go", "C01 C07 C08 C09 C10 C16 C17 C19 C20"),
+          (r"^builder\.go|^converters|^types\.go", "C02 C07 C08 C10 C15 C18"),
+          (r"^datalog/datalog\.go", "C04 C05 C06 C10 C11 C12 C19"),
+          (r"^datalog/(expressions|symbol)\.go", "C05 C06 C07 C10 C15 C19"),
+          (r"^parser/", "C14 C15 C19")]
 PAR = os.environ.get("PARTEST_DIR", "/tmp/par")
 
 
@@ -142,7 +149,15 @@ def do_candidate(kind, cdir, v, r, checks_arg):
     report["valid"] = True
     results = {}
     prop = meta.get("property", name[:3])
-    if checks_arg == "all" or kind == "benign" and checks_arg == "auto":
+    if checks_arg == "byfile":
+        files = re.findall(r"^diff --git a/(\S+)", open(patch).read(), flags=re.M)
+        sel = set()
+        for f in files:
+            for pat, cs in BYFILE:
+                if re.search(pat, f):
+                    sel.update(cs.split())
+        run_checks(v, r, sorted(sel) or ALL, results)
+    elif checks_arg == "all" or kind == "benign" and checks_arg == "auto":
         run_checks(v, r, ALL, results)
     elif checks_arg == "auto":
         run_checks(v, r, [prop], results)
